@@ -233,14 +233,19 @@ func runC12(r *evid.Run) {
 		outs   [][2]uint64
 		rsize  int
 		withIf bool
+		repeat int // > 1: the program is the body of a loop, outs are those of `repeat` iterations
 	}
 	var progs []gprog
+	var genR func(rsize int, withIf, noAssign bool, repeat, n, depth int, seed int64) bool
 	gen := func(rsize int, withIf, noAssign bool, n, depth int, seed int64) bool {
-		dir := filepath.Join(scratch, fmt.Sprintf("gs_%d_%v_%v", rsize, withIf, noAssign))
+		return genR(rsize, withIf, noAssign, 1, n, depth, seed)
+	}
+	genR = func(rsize int, withIf, noAssign bool, repeat, n, depth int, seed int64) bool {
+		dir := filepath.Join(scratch, fmt.Sprintf("gs_%d_%v_%v_%d", rsize, withIf, noAssign, repeat))
 		os.MkdirAll(dir, 0o755)
-		cfg := fmt.Sprintf("SPECIFICATION Spec\nCONSTANTS\n RSize = %d\n MaxLen = %d\n WithIf = %s\n NoAssign = %s\nINVARIANT TypeOK\nCHECK_DEADLOCK FALSE\n", rsize, depth, strings.ToUpper(fmt.Sprint(withIf)), strings.ToUpper(fmt.Sprint(noAssign)))
+		cfg := fmt.Sprintf("SPECIFICATION Spec\nCONSTANTS\n RSize = %d\n MaxLen = %d\n WithIf = %s\n NoAssign = %s\n Repeat = %d\nINVARIANT TypeOK\nCHECK_DEADLOCK FALSE\n", rsize, depth, strings.ToUpper(fmt.Sprint(withIf)), strings.ToUpper(fmt.Sprint(noAssign)), repeat)
 		_, err := tlc.Run(tlc.Options{SpecDir: specDir, Module: "GoSubset", CfgText: cfg, Workers: 1, Timeout: 15 * time.Minute,
-			Args: []string{"-simulate", fmt.Sprintf("file=%s/b,num=%d", dir, n), "-depth", strconv.Itoa(depth + 1), "-seed", strconv.FormatInt(seed, 10)}})
+			Args: []string{"-simulate", fmt.Sprintf("file=%s/b,num=%d", dir, n), "-depth", strconv.Itoa(depth + repeat + 1), "-seed", strconv.FormatInt(seed, 10)}})
 		if err != nil {
 			r.Inconclusive("tlc simulate: %v", err)
 			return false
@@ -254,7 +259,7 @@ func runC12(r *evid.Run) {
 				return false
 			}
 			last := beh[len(beh)-1].Vars
-			g := gprog{prog: last["prog"], rsize: rsize, withIf: withIf}
+			g := gprog{prog: last["prog"], rsize: rsize, withIf: withIf, repeat: repeat}
 			for _, o := range tlaval.AsSeq(last["outs"]) {
 				t := tlaval.AsSeq(o)
 				g.outs = append(g.outs, [2]uint64{uint64(tlaval.Int(t[0])), uint64(tlaval.Int(t[1]))})
@@ -269,7 +274,15 @@ func runC12(r *evid.Run) {
 		!gen(8, false, true, r.Pick(15, 120), 6, r.Seed*11+4) || !gen(8, true, false, r.Pick(25, 150), 5, r.Seed*11+3) {
 		return
 	}
-	states += int64(len(progs))
+	// loop bodies: the generated program is the body of an endless loop (three iterations are executed in
+	// the specification), compiled once inside main and once inside a goroutine of its own
+	nStraight := len(progs)
+	if !genR(8, false, false, 3, r.Pick(24, 200), 4, r.Seed*11+5) || !genR(16, false, false, 3, r.Pick(10, 100), 5, r.Seed*11+6) {
+		return
+	}
+	loopProgs := append([]gprog{}, progs[nStraight:]...)
+	progs = progs[:nStraight]
+	states += int64(len(progs) + len(loopProgs))
 
 	// ---- concurrency half on the real compiler: forced schedules ------------------------------------------
 	tracePath := filepath.Join(scratch, "trace.ndjson")
@@ -382,7 +395,125 @@ func runC12(r *evid.Run) {
 			r.Sample(map[string]interface{}{"source": src, "expected_outputs": g.outs, "assembly_lines": nInstr})
 		}
 	}
-	r.Set("programs", int64(len(progs)))
+	// ---- loops, in main and in a goroutine ------------------------------------------------------------------
+	var loopsCompared int64
+	for _, g := range loopProgs {
+		if len(g.outs) == 0 {
+			continue
+		}
+		for _, inWorker := range []bool{false, true} {
+			src := goLoopProgram(g.prog, g.rsize, inWorker)
+			where := "main"
+			if inWorker {
+				where = "goroutine"
+			}
+			res := runBondgo(bin, filepath.Join(scratch, "sem"), src, g.rsize, "", 20*time.Second)
+			if res.status != "ok" {
+				r.Violate("no-termination:unforced-compilation", fmt.Sprintf("bondgo does not terminate normally (%s) on a generated loop in %s", res.status, where), map[string]interface{}{"source": src, "status": res.status, "output_tail": tailStr(res.out, 400)})
+				continue
+			}
+			if strings.Contains(res.out, "Error:") || len(res.bmJSON) == 0 {
+				rejectedSrc++
+				rejectKinds[strings.SplitN(strings.TrimSpace(res.out), "\n", 2)[0]]++
+				continue
+			}
+			nInstr := strings.Count(res.asmText, "\n") + 40
+			streams, err := simulateAllOutputs(res.bmJSON, (g.repeat+3)*4*nInstr+100)
+			ctx := map[string]interface{}{"source": src, "expected_first_iterations": g.outs, "simulated_by_processor": streams}
+			if err != nil {
+				r.Violate("emitted-machine-not-simulable", fmt.Sprintf("the machine bondgo emitted for a loop in %s cannot be simulated: %v", where, err), ctx)
+				continue
+			}
+			// the processor that runs the body writes the specification's stream (a prefix: the loop goes on)
+			found := false
+			for _, st := range streams {
+				if len(st) >= len(g.outs) && fmt.Sprint(st[:len(g.outs)]) == fmt.Sprint(g.outs) {
+					found = true
+				}
+			}
+			loopsCompared++
+			if !found {
+				sig := "wrong-output:loop-in-" + where
+				if g.withIf {
+					sig += ":program-uses-=="
+				}
+				r.Violate(sig, fmt.Sprintf("a loop in %s: no processor writes the stream of the source %v (rsize %d)", where, g.outs, g.rsize), ctx)
+			}
+			r.Distinct("loop|" + src)
+		}
+	}
+	r.Set("loop_programs_compared", loopsCompared)
+
+	// ---- linked goroutines: settled outputs (GoLinked) ---------------------------------------------------------
+	rowPath := filepath.Join(scratch, "linked.ndjson")
+	lres, err := tlc.Run(tlc.Options{SpecDir: specDir, Module: "GoLinked", Cfg: "GoLinked.cfg", Workers: 1, Timeout: 5 * time.Minute, Env: map[string]string{"ROWS": rowPath}})
+	if err != nil || !lres.OK() {
+		r.Inconclusive("tlc GoLinked: %v", err)
+		return
+	}
+	states += lres.Distinct
+	var linkedCompared int64
+	readNDJSON(rowPath, func(b []byte) error {
+		var row struct {
+			LinkFirst bool   `json:"linkfirst"`
+			Extra     bool   `json:"extra"`
+			In0       uint64 `json:"in0"`
+			Inx       uint64 `json:"inx"`
+			Out0      uint64 `json:"out0"`
+			Wout      uint64 `json:"wout"`
+		}
+		if json.Unmarshal(b, &row) != nil {
+			return nil
+		}
+		src := goLinkedValues(row.LinkFirst, row.Extra)
+		res := runBondgo(bin, filepath.Join(scratch, "sem"), src, 8, "", 20*time.Second)
+		ctx := map[string]interface{}{"source": src, "row": row}
+		if res.status != "ok" || len(res.bmJSON) == 0 {
+			r.Violate("no-termination:linked-goroutines", fmt.Sprintf("bondgo does not compile two linked goroutines (%s): %s", res.status, tailStr(res.out, 300)), ctx)
+			return nil
+		}
+		bm, err := loadMachine(res.bmJSON)
+		if err != nil {
+			r.Violate("emitted-machine-not-simulable", fmt.Sprintf("the machine emitted for two linked goroutines cannot be loaded: %v", err), ctx)
+			return nil
+		}
+		got, err := settledOutputs(bm, []uint64{row.In0, row.Inx}, 8)
+		if err != nil {
+			r.Violate("emitted-machine-not-simulable", fmt.Sprintf("the machine emitted for two linked goroutines cannot be simulated: %v", err), ctx)
+			return nil
+		}
+		linkedCompared++
+		want := []uint64{row.Out0, row.Wout}
+		ctx["settled_outputs"], ctx["expected"] = got, want
+		if fmt.Sprint(got) != fmt.Sprint(want) {
+			r.Violate("wrong-output:linked-goroutines", fmt.Sprintf("two linked goroutines: the external outputs settle to %v, the source gives %v", got, want), ctx)
+		}
+		return nil
+	})
+	r.Set("linked_goroutine_programs_compared", linkedCompared)
+
+	// ---- a catalogue of language features: compilation terminates and does not depend on the schedule -----------
+	var featureRuns int64
+	for _, ft := range goFeatureSources() {
+		ref := ""
+		for _, d := range []string{"", "assigner-notify=12ms", "monitor-recv=4ms", "assigner-answer=12ms"} {
+			res := runBondgo(bin, filepath.Join(scratch, "cc"), ft[1], 8, d, 15*time.Second)
+			featureRuns++
+			ctx := map[string]interface{}{"feature": ft[0], "source": ft[1], "delays": d, "output_tail": tailStr(res.out, 300)}
+			if res.status != "ok" {
+				r.Violate("no-termination:feature:"+ft[0], fmt.Sprintf("bondgo does not terminate normally (%s) on a program with %s (delays %q)", res.status, ft[0], d), ctx)
+				break
+			}
+			if ref == "" {
+				ref = res.digest
+			} else if res.digest != ref {
+				r.Violate("output-depends-on-schedule:feature:"+ft[0], fmt.Sprintf("bondgo emits different artefacts for a program with %s under delays %q", ft[0], d), ctx)
+				break
+			}
+		}
+	}
+	r.Set("feature_catalogue_compilations", featureRuns)
+	r.Set("programs", int64(len(progs)+len(loopProgs)))
 	r.Set("programs_compiled", compiled)
 	r.Set("programs_compared", compared)
 	r.Set("programs_rejected_by_compiler", rejectedSrc)
@@ -393,5 +524,160 @@ func runC12(r *evid.Run) {
 	r.Set("evaluations", int64(len(runInfos))+int64(len(progs)))
 	if compared == 0 {
 		r.Inconclusive("no generated program was compiled and compared: the semantic half is vacuous")
+	}
+}
+
+// goLoopProgram prints a GoSubset program as the body of an endless loop, in main or in a goroutine
+// (main then counts on an output of its own).
+func goLoopProgram(prog tlaval.Value, rsize int, inWorker bool) string {
+	goRsize = rsize
+	typ := "uint" + strconv.Itoa(rsize)
+	var sb strings.Builder
+	sb.WriteString("package main\n\nimport (\n\t\"bondgo\"\n)\n\n")
+	body := func(id0, id1 int) {
+		sb.WriteString("\tvar o0 bondgo.Output\n\tvar o1 bondgo.Output\n")
+		for _, v := range []string{"a", "b", "c"} {
+			sb.WriteString("\tvar reg_" + v + " " + typ + "\n")
+		}
+		fmt.Fprintf(&sb, "\to0 = bondgo.Make(bondgo.Output, %d)\n\to1 = bondgo.Make(bondgo.Output, %d)\n\tfor {\n", id0, id1)
+		for _, s := range tlaval.AsSeq(prog) {
+			sb.WriteString(goStmt(s, "\t\t"))
+		}
+		sb.WriteString("\t}\n")
+	}
+	if inWorker {
+		sb.WriteString("func worker() {\n")
+		body(3, 4)
+		sb.WriteString("}\n\nfunc main() {\n\tvar m0 bondgo.Output\n\tvar reg_m " + typ + "\n\tm0 = bondgo.Make(bondgo.Output, 1)\n\tgo worker()\n\tfor {\n\t\treg_m++\n\t\tbondgo.IOWrite(m0, reg_m)\n\t}\n}\n")
+	} else {
+		sb.WriteString("func main() {\n")
+		body(1, 2)
+		sb.WriteString("}\n")
+	}
+	return sb.String()
+}
+
+// simulateAllOutputs runs the emitted machine and returns, per processor, the values written by r2o.
+func simulateAllOutputs(bmJSON []byte, ticks int) (outs [][][2]uint64, err error) {
+	defer func() {
+		if e := recover(); e != nil {
+			err = fmt.Errorf("panic: %v", e)
+		}
+	}()
+	bm, err := loadMachine(bmJSON)
+	if err != nil {
+		return nil, err
+	}
+	vm, err := startVM(bm, nil)
+	if err != nil {
+		return nil, err
+	}
+	defer vm.Stop()
+	outs = make([][][2]uint64, len(vm.Processors))
+	pcs := make([]uint64, len(vm.Processors))
+	ports := make([]int, len(vm.Processors))
+	for t := 0; t < ticks; t++ {
+		for i, p := range vm.Processors {
+			pcs[i], ports[i] = p.Pc, -1
+			if int(p.Pc) < len(p.Mach.Program.Slocs) {
+				instr := p.Mach.Program.Slocs[p.Pc]
+				idx, _ := p.Mach.Conproc.Decode_opcode(instr)
+				op := p.Mach.Arch.Conproc.Op[idx]
+				if op.Op_get_name() == "r2o" {
+					dis, _ := op.Disassembler(&p.Mach.Arch, instr[p.Mach.Opcodes_bits():])
+					f := strings.Fields(dis)
+					if len(f) == 2 && strings.HasPrefix(f[1], "o") {
+						ports[i], _ = strconv.Atoi(f[1][1:])
+					}
+				}
+			}
+		}
+		if _, err := vm.Step(nil); err != nil {
+			return outs, err
+		}
+		for i, p := range vm.Processors {
+			if ports[i] >= 0 && p.Pc == pcs[i]+1 {
+				outs[i] = append(outs[i], [2]uint64{uint64(ports[i]), u64(p.Outputs[ports[i]])})
+			}
+		}
+	}
+	return outs, nil
+}
+
+// goLinkedValues is the GoLinked family as Go source.
+func goLinkedValues(linkFirst, workerExtra bool) string {
+	var sb strings.Builder
+	sb.WriteString("package main\n\nimport \"bondgo\"\n\nfunc worker() {\n")
+	if workerExtra {
+		sb.WriteString("\tvar wother bondgo.Input\n")
+	}
+	sb.WriteString("\tvar win bondgo.Input\n\tvar wout bondgo.Output\n")
+	if workerExtra {
+		sb.WriteString("\twother = bondgo.Make(bondgo.Input, 9)\n")
+	}
+	sb.WriteString("\twin = bondgo.Make(bondgo.Input, 5)\n\twout = bondgo.Make(bondgo.Output, 2)\n\tfor {\n")
+	if workerExtra {
+		sb.WriteString("\t\tbondgo.IOWrite(wout, bondgo.IORead(win)+bondgo.IORead(wother))\n")
+	} else {
+		sb.WriteString("\t\tbondgo.IOWrite(wout, bondgo.IORead(win)+1)\n")
+	}
+	sb.WriteString("\t}\n}\n\nfunc main() {\n\tvar in0 bondgo.Input\n")
+	if linkFirst {
+		sb.WriteString("\tvar link bondgo.Output\n\tvar out0 bondgo.Output\n\tin0 = bondgo.Make(bondgo.Input, 3)\n\tlink = bondgo.Make(bondgo.Output, 5)\n\tout0 = bondgo.Make(bondgo.Output, 1)\n")
+	} else {
+		sb.WriteString("\tvar out0 bondgo.Output\n\tvar link bondgo.Output\n\tin0 = bondgo.Make(bondgo.Input, 3)\n\tout0 = bondgo.Make(bondgo.Output, 1)\n\tlink = bondgo.Make(bondgo.Output, 5)\n")
+	}
+	sb.WriteString("\tgo worker()\n\tfor {\n\t\tbondgo.IOWrite(out0, bondgo.IORead(in0))\n\t\tbondgo.IOWrite(link, bondgo.IORead(in0)+5)\n\t}\n}\n")
+	return sb.String()
+}
+
+// settledOutputs simulates a machine with its external inputs held and returns the external
+// outputs once they have been stable for a while.
+func settledOutputs(bm *bondmachine.Bondmachine, inputs []uint64, rsize int) (outs []uint64, err error) {
+	defer func() {
+		if e := recover(); e != nil {
+			err = fmt.Errorf("panic: %v", e)
+		}
+	}()
+	vm, err := startVM(bm, nil)
+	if err != nil {
+		return nil, err
+	}
+	defer vm.Stop()
+	for i := range vm.Inputs_regs {
+		if i < len(inputs) {
+			vm.Inputs_regs[i] = regVal(rsize, inputs[i])
+			vm.InputsValid[i] = true
+		}
+	}
+	last, stable := "", 0
+	for t := 0; t < 3000 && stable < 150; t++ {
+		if _, err := vm.Step(nil); err != nil {
+			return nil, err
+		}
+		cur := fmt.Sprint(vm.Outputs_regs)
+		if cur == last {
+			stable++
+		} else {
+			last, stable = cur, 0
+		}
+	}
+	for _, v := range vm.Outputs_regs {
+		outs = append(outs, u64(v))
+	}
+	return outs, nil
+}
+
+// goFeatureSources is a catalogue of Go sources, one per language feature of the accepted subset that
+// the generated programs do not reach (channels and where they are declared, functions, goroutines).
+func goFeatureSources() [][2]string {
+	worker := "func worker(c chan uint8) {\n\tvar o1 bondgo.Output\n\tvar reg_v uint8\n\to1 = bondgo.Make(bondgo.Output, 2)\n\tfor {\n\t\treg_v = <-c\n\t\tbondgo.IOWrite(o1, reg_v)\n\t}\n}\n\n"
+	head := "package main\n\nimport \"bondgo\"\n\n"
+	return [][2]string{
+		{"a channel declared at the top of main", head + worker + "func main() {\n\tvar o0 bondgo.Output\n\tvar reg_a uint8\n\tvar c chan uint8\n\to0 = bondgo.Make(bondgo.Output, 1)\n\tgo worker(c)\n\tfor {\n\t\treg_a++\n\t\tc <- reg_a\n\t\tbondgo.IOWrite(o0, reg_a)\n\t}\n}\n"},
+		{"a channel declared in an inner block", head + worker + "func main() {\n\tvar o0 bondgo.Output\n\tvar reg_a uint8\n\to0 = bondgo.Make(bondgo.Output, 1)\n\t{\n\t\tvar c chan uint8\n\t\tgo worker(c)\n\t\tc <- 5\n\t}\n\tfor {\n\t\treg_a++\n\t\tbondgo.IOWrite(o0, reg_a)\n\t}\n}\n"},
+		{"a channel passed to a function", head + worker + "func push(c chan uint8, v uint8) uint8 {\n\tc <- v\n\treturn v + 1\n}\n\nfunc main() {\n\tvar o0 bondgo.Output\n\tvar reg_a uint8\n\tvar c chan uint8\n\to0 = bondgo.Make(bondgo.Output, 1)\n\tgo worker(c)\n\tfor {\n\t\treg_a = push(c, reg_a)\n\t\tbondgo.IOWrite(o0, reg_a)\n\t}\n}\n"},
+		{"a function called from a goroutine's loop", head + "func twice(v uint8) uint8 {\n\treturn v + v\n}\n\nfunc worker() {\n\tvar o1 bondgo.Output\n\tvar reg_v uint8\n\to1 = bondgo.Make(bondgo.Output, 2)\n\tfor {\n\t\treg_v++\n\t\treg_v = twice(reg_v)\n\t\tbondgo.IOWrite(o1, reg_v)\n\t}\n}\n\nfunc main() {\n\tvar o0 bondgo.Output\n\tvar reg_a uint8\n\to0 = bondgo.Make(bondgo.Output, 1)\n\tgo worker()\n\tfor {\n\t\treg_a++\n\t\tbondgo.IOWrite(o0, reg_a)\n\t}\n}\n"},
+		{"variables declared in nested blocks", head + "func main() {\n\tvar o0 bondgo.Output\n\tvar reg_a uint8\n\to0 = bondgo.Make(bondgo.Output, 1)\n\tfor {\n\t\t{\n\t\t\tvar reg_b uint8\n\t\t\treg_b = reg_a + 1\n\t\t\t{\n\t\t\t\tvar reg_c uint8\n\t\t\t\treg_c = reg_b + 1\n\t\t\t\treg_a = reg_c\n\t\t\t}\n\t\t}\n\t\tbondgo.IOWrite(o0, reg_a)\n\t}\n}\n"},
 	}
 }
